@@ -52,6 +52,9 @@ def run(ctx: Ctx) -> None:
     dec = _decoder(ctx)
     if dec is not None:
         _space(ctx, dec)
+    ctx.rule("D15.5", "the cells of a plan can hold every entry the decoder "
+             "writes (-n .. n)")
+    _plan_cells(ctx)
     ctx.assumptions += ["n >= 2 teams (instance constructor)",
                         "the plan has (n-1)*rounds rows of n cells "
                         "(GamePlan.__new__, C13 D13.3)"]
@@ -684,3 +687,84 @@ def _pair_balance(ctx: Ctx, fi: FuncInfo, loops: list[ast.For],
            "home/away balance per pairing is lost: " + problems[0],
            construct="orientation per round")
     del O
+
+
+
+# ------------------------------------------------------------------ D15.5
+def _plan_cells(ctx: Ctx) -> None:
+    """The decoder stores `away + 1` (up to +n) in the host's cell and
+    `-(home + 1)` (down to -n) in the guest's: a consistent plan needs cells
+    that hold all of -n..n.  `GamePlan.__new__` takes the type from
+    `instance.game_plan_dtype`, which the instance derives as
+    int_range_to_dtype(-n, n)."""
+    from sa.srcmodel import inline_locals
+    repo = ctx.repo
+    gp = repo.func("moptipyapps.ttp.game_plan", "GamePlan.__new__")
+    ins = repo.func("moptipyapps.ttp.instance", "Instance.__new__")
+    ip = next((p_ for p_ in gp.params[1:] if "inst" in p_), None)
+    alloc = [c for c in ast.walk(gp.node) if isinstance(c, ast.Call)
+             and isinstance(c.func, ast.Attribute)
+             and c.func.attr == "__new__" and len(c.args) >= 3]
+    if len(alloc) != 1 or ip is None:
+        ctx.ob("D15.5", gp, gp.node, False,
+               "the allocation of the plan array is not recognised",
+               construct="plan cell type")
+        return
+    d = inline_locals(gp.node, alloc[0].args[2])
+    src = ast.unparse(d)
+    ok = src == f"{ip}.game_plan_dtype"
+    detail = (f"the plan is allocated with `{src}`")
+    if not ok:
+        if isinstance(d, ast.Call) and ast.unparse(d.func).split(".")[-1] in (
+                "min_scalar_type", "int_range_to_dtype", "dtype",
+                "result_type", "promote_types"):
+            args = [ast.unparse(inline_locals(gp.node, a)) for a in d.args]
+            fn = ast.unparse(d.func).split(".")[-1]
+            n_src = f"{ip}.n_cities"
+            covers = fn == "int_range_to_dtype" and len(args) >= 2 and \
+                args[0] in (f"-{n_src}", f"-({n_src})") and args[1] == n_src
+            if covers:
+                ok = True
+            else:
+                detail += (": a type chosen from " + ", ".join(args)
+                           + " need not hold every value of -n .. n that "
+                           "the decoder stores (signed types are "
+                           "asymmetric: n = 128 needs more than -128 does)")
+        else:
+            detail = (f"the cell type `{src}` of the plan is not recognised "
+                      "as the instance's game_plan_dtype")
+    ctx.ob("D15.5", gp, alloc[0], ok,
+           f"the plan is allocated with {ip}.game_plan_dtype" if ok
+           else detail, construct="plan cell type")
+    # the instance side
+    st = [s_ for s_ in ast.walk(ins.node) if isinstance(s_, ast.Assign)
+          and any(isinstance(t, ast.Attribute) and t.attr ==
+                  "game_plan_dtype" for t in s_.targets)]
+    if len(st) != 1:
+        ctx.ob("D15.5", ins, ins.node, False,
+               "the assignment of game_plan_dtype is not recognised",
+               construct="game_plan_dtype range")
+        return
+    v = inline_locals(ins.node, st[0].value)
+    ok2 = False
+    det2 = f"game_plan_dtype = `{ast.unparse(v)[:80]}` is not recognised"
+    kw_ = {k.arg: k.value for k in v.keywords} if isinstance(
+        v, ast.Call) else {}
+    a_lo = v.args[0] if isinstance(v, ast.Call) and len(
+        v.args) >= 1 else kw_.get("min_value")
+    a_hi = v.args[1] if isinstance(v, ast.Call) and len(
+        v.args) >= 2 else kw_.get("max_value")
+    if isinstance(v, ast.Call) and ast.unparse(v.func).endswith(
+            "int_range_to_dtype") and a_lo is not None and a_hi is not None \
+            and "force_unsigned" not in kw_:
+        lo, hi = (inline_locals(ins.node, a) for a in (a_lo, a_hi))
+        los, his = ast.unparse(lo), ast.unparse(hi)
+        n_forms = {his}
+        ok2 = los in {f"-{h_}" for h_ in n_forms} | {
+            f"-({h_})" for h_ in n_forms} and (
+            "len(" in his or "n_cities" in his or his == "n")
+        det2 = (f"game_plan_dtype = int_range_to_dtype({los}, {his})"
+                + ("" if ok2 else ": not the symmetric range -n .. n of "
+                   "the plan entries"))
+    ctx.ob("D15.5", ins, st[0], ok2, det2,
+           construct="game_plan_dtype range")
